@@ -81,7 +81,7 @@ def check_roundtrip(acc, case, key, cls, kind, events, index, columns, n, p):
     if list(dense.columns) != want_cols:
         acc.violation("dense-columns", case, f"dense columns {list(dense.columns)} != {want_cols}", key)
         return
-    if any(str(dt) != "int64" for dt in dense.dtypes):
+    if any(not pd.api.types.is_integer_dtype(dt) for dt in dense.dtypes):  # any integer dtype satisfies the statement
         acc.violation("dense-dtype", case, f"dense dtypes {list(map(str, dense.dtypes))}", key)
         return
     back = cls.dense_to_sparse(dense)
